@@ -49,6 +49,9 @@ def run(ctx: Ctx, rep: Report) -> None:
         C09.pair(ctx, rep, qual, tag)
     C09.publish(ctx, rep)
     measure(ctx, rep)
+    # single-qudit retargeting (ZXZXZ) spells the same rotation two ways
+    from ..rules.branchsib import rule_altspell
+    rule_altspell(ctx, rep, 'bqskit/passes/', 3)
 
 
 def wf_rule(ctx: Ctx, rep: Report) -> None:
